@@ -50,6 +50,7 @@ type env struct {
 	alt   map[string]*altID // identities with other key types, registered under dom1 as nodes 4 (rsa), 5 (ed25519), 6 (p384)
 	pki   *netlib.PKI
 	ids   []*ident // registered: 1 (dom1), 2 (dom1), 3 (dom2)
+	dflt  *ident   // registered as node 7 under the default (empty) domain only
 	unreg *ident
 	lis   *netlib.Listener
 	col   *netlib.Collector
@@ -72,6 +73,9 @@ func newEnv() *env {
 		e.ids = append(e.ids, id)
 		p2id[netlib.LookupKey(d, pair.Cert)] = id.id
 	}
+	dp, _ := pki.CA.NewClientCertKeyPair()
+	e.dflt = &ident{id: 7, domain: "", pair: dp}
+	p2id[netlib.LookupKey("", dp.Cert)] = 7
 	up, _ := pki.CA.NewClientCertKeyPair()
 	e.unreg = &ident{id: 99, domain: "dom1", pair: up}
 	e.alt = map[string]*altID{}
@@ -234,6 +238,19 @@ func variants(thorough bool) []variant {
 			h := validHandshake(e.ids[0], b)
 			h.Domain = d
 			netlib.SignHandshake(&h, e.ids[0].key())
+			return frame(h), 0, ""
+		})
+	}
+	// an identity registered under the default (empty) domain only
+	add("control", "default-domain-identity-valid", func(e *env, b, ob, of []byte) ([]byte, uint16, string) {
+		return frame(validHandshake(e.dflt, b)), 7, ""
+	})
+	for _, d := range []string{"dom1", "dom2", "payments", "\x00"} {
+		d := d
+		add("domain", fmt.Sprintf("default-domain-identity-claims-%q", d), func(e *env, b, ob, of []byte) ([]byte, uint16, string) {
+			h := validHandshake(e.dflt, b)
+			h.Domain = d
+			netlib.SignHandshake(&h, e.dflt.key())
 			return frame(h), 0, ""
 		})
 	}
